@@ -495,50 +495,6 @@ func (p *Prog) segClass(v ssa.Value, isPath func(ssa.Value) bool, depth int) str
 		if g := staticCallee(&x.Call); g != nil && p.InModule(g) && !p.Exported(g) && len(g.Blocks) > 0 && depth < 3 {
 			return p.segClassOfResult(x, 0, isPath, depth)
 		}
-		if false {
-			g := staticCallee(&x.Call)
-			// bind: which parameters are the path
-			var bound []*ssa.Parameter
-			for i, a := range x.Call.Args {
-				if i < len(g.Params) && isPath(a) {
-					bound = append(bound, g.Params[i])
-				}
-			}
-			if len(bound) == 0 {
-				return ""
-			}
-			inner := func(w ssa.Value) bool {
-				for _, b := range bound {
-					if w == ssa.Value(b) {
-						return true
-					}
-				}
-				return false
-			}
-			cls := ""
-			ok := true
-			eachInstr(g, func(b *ssa.BasicBlock, in ssa.Instruction) {
-				ret, isR := in.(*ssa.Return)
-				if !isR || len(ret.Results) == 0 {
-					return
-				}
-				c := p.segClass(ret.Results[0], inner, depth+1)
-				if c == "empty" {
-					return
-				}
-				if cls == "" {
-					cls = c
-				} else if cls != c {
-					ok = false
-				}
-				if c == "" {
-					ok = false
-				}
-			})
-			if ok {
-				return cls
-			}
-		}
 	case *ssa.Extract:
 		if c, ok := x.Tuple.(*ssa.Call); ok {
 			if g := staticCallee(&c.Call); g != nil && p.InModule(g) && !p.Exported(g) && len(g.Blocks) > 0 && depth < 3 {
